@@ -45,6 +45,7 @@ type spec struct {
 	Out       string   `json:"out"`         // file name under lean/MidiModel/Generated/
 	Imports   []string `json:"imports"`     // further Lean modules to import (translations of the extern packages)
 	Extern    []string `json:"extern_pkgs"` // packages (relative to the module) whose functions are emitted elsewhere
+	ExternStructs []string `json:"extern_structs"` // structures (Lean names) that an imported translation already declares
 	NilIsEmpty bool    `json:"nil_is_empty"` // translate `slice == nil` as "is empty" (sound where the slice is never empty-but-non-nil)
 	Roots     []struct {
 		Pkg      string   `json:"pkg"`
@@ -299,6 +300,11 @@ func main() {
 		for _, d := range append([]*types.Named{}, t.structs[before:]...) {
 			emit(d)
 		}
+		for _, ex := range sp.ExternStructs {
+			if ex == t.structName(n) {
+				return
+			}
+		}
 		sout.WriteString(text)
 	}
 	for i := 0; i < len(t.structs); i++ {
@@ -342,6 +348,12 @@ func (t *tr) addClosure(p *pkgInfo, fn, vn, argOf string) {
 		case *ast.AssignStmt:
 			for i, l := range x.Lhs {
 				if id, ok := l.(*ast.Ident); ok && vn != "" && id.Name == vn && i < len(x.Rhs) {
+					if fl, ok := x.Rhs[i].(*ast.FuncLit); ok {
+						lit = fl
+					}
+				}
+				// ... or to a field: x.<Var> = func(...) {...}
+				if se, ok := l.(*ast.SelectorExpr); ok && vn != "" && se.Sel.Name == vn && i < len(x.Rhs) {
 					if fl, ok := x.Rhs[i].(*ast.FuncLit); ok {
 						lit = fl
 					}
